@@ -31,6 +31,8 @@ trait Fb: Send + Sync {
     fn bytes_mut(&mut self) -> &mut [u8];
     fn image_map(&self) -> Map<u32>;
     fn apply(&mut self, a: &Act, mask: u32);
+    /// the ordered pixel writes the drawable of `Act::Drawable` makes on an unbounded recording target
+    fn drawable_writes(&self, kind: u8, v: u32, mask: u32) -> Vec<(P2, u32)>;
 }
 
 macro_rules! fb_impl {
@@ -88,10 +90,49 @@ macro_rules! fb_impl {
                             .build();
                         Rectangle::new(Point::new(r.0, r.1), Size::new(r.2, r.3)).into_styled(style).draw(self).unwrap()
                     }
+                    Act::Drawable(kind, v) => draw_kind::<$c, _>(self, *kind, *v & m, $w, $h),
                 }
+            }
+            fn drawable_writes(&self, kind: u8, v: u32, m: u32) -> Vec<(P2, u32)> {
+                let mut t = RecD::<$c>::new().logging();
+                draw_kind::<$c, _>(&mut t, kind, v & m, $w, $h);
+                let mut out = vec![];
+                for c in &t.log {
+                    if let Call::DrawIter(px) = c {
+                        out.extend(px.iter().map(|(p, c)| (*p, raw_u32(*c))));
+                    }
+                }
+                out
             }
         }
     };
+}
+
+fn draw_kind<C: PixelColor, T: DrawTarget<Color = C>>(t: &mut T, kind: u8, v: u32, w: usize, h: usize)
+where
+    T::Error: core::fmt::Debug,
+{
+    use embedded_graphics::mono_font::{ascii::FONT_4X6, MonoTextStyleBuilder};
+    use embedded_graphics::primitives::{Circle, Line, PrimitiveStyleBuilder, Triangle};
+    use embedded_graphics::text::{Baseline, Text};
+    let (c1, c2): (C, C) = (col(v), col(!v & if core::mem::size_of::<C>() == 0 { 0 } else { u32::MAX } & mask_of::<C>()));
+    match kind {
+        0 => Circle::new(Point::new(-1, -1), 4).into_styled(PrimitiveStyleBuilder::new().fill_color(c1).stroke_color(c2).stroke_width(1).build()).draw(t).unwrap(),
+        1 => Line::new(Point::new(-1, 0), Point::new(w as i32, h as i32 - 1)).into_styled(PrimitiveStyle::with_stroke(c1, 1)).draw(t).unwrap(),
+        2 => {
+            Text::with_baseline("a", Point::new(1, -1), MonoTextStyleBuilder::new().font(&FONT_4X6).text_color(c1).background_color(c2).build(), Baseline::Top).draw(t).unwrap();
+        }
+        _ => Triangle::new(Point::new(0, 0), Point::new(w as i32 + 1, 1), Point::new(1, h as i32)).into_styled(PrimitiveStyleBuilder::new().fill_color(c2).stroke_color(c1).stroke_width(2).build()).draw(t).unwrap(),
+    }
+}
+
+fn mask_of<C: PixelColor>() -> u32 {
+    let bpp = <C::Raw as RawData>::BITS_PER_PIXEL;
+    if bpp >= 32 {
+        u32::MAX
+    } else {
+        (1u32 << bpp) - 1
+    }
 }
 
 fn col<C: PixelColor>(raw: u32) -> C {
@@ -106,6 +147,8 @@ enum Act {
     FillContig((i32, i32, u32, u32), u32),
     Clear(u32),
     DrawRect((i32, i32, u32, u32), u32),
+    /// an arbitrary drawable: 0 filled+stroked circle, 1 line across the buffer, 2 text with background, 3 thick triangle
+    Drawable(u8, u32),
 }
 
 #[derive(Clone, Debug, PartialEq, Eq, Hash, Serialize, Deserialize)]
@@ -244,6 +287,7 @@ impl Model for M {
                 }
                 wr
             }
+            Act::Drawable(kind, v) => s.fb.drawable_writes(*kind, *v, m),
         };
         let mut any_inside = false;
         for (p, v) in &writes {
@@ -291,7 +335,11 @@ fn alphabet(w: i32, h: i32, thorough: bool) -> Vec<Act> {
     v.push(Act::FillSolid((w - 2, -1, 3, 3), 0x5555_5555));
     v.push(Act::Clear(0xAAAA_AAAB));
     v.push(Act::DrawRect((0, 0, w as u32, h as u32), 0x7777_7777));
+    v.push(Act::Drawable(2, 0x3C3C_3C3D));
     if thorough {
+        v.push(Act::Drawable(0, 0x1111_1112));
+        v.push(Act::Drawable(1, 0xFFFF_FFFF));
+        v.push(Act::Drawable(3, 0x0F1E_2D3C));
         v.push(Act::FillContig((-1, 0, (w + 1) as u32, 2), (w + 3) as u32));
         v.push(Act::Clear(0));
         v.push(Act::DrawRect((1, -1, w as u32, (h + 1) as u32), 0x0F0F_0F0F));
@@ -368,7 +416,7 @@ fn explore_one(run: &mut Run, depth: usize, make: fn() -> Box<dyn Fb>) {
     }
     let m = M { acts: alphabet(proto.w() as i32, proto.h() as i32, run.tier.is_thorough()), make };
     let inits = vec![Init { config: name.clone(), sentinel: false }, Init { config: name, sentinel: true }];
-    let stats = run.explore("write-histories", "per configuration (7 depths x 2 data orders x sizes {1x1,3x2,5x3,8x2,9x2} x buffer {exact,+3 bytes}): all sequences of set_pixel (corners, middle, 4 outside points x 3 values) / draw_iter / fill_solid partly outside / clear / stroked rectangle from the zeroed and the 0xA5-filled framebuffer, deduplicated on the byte array", &m, inits.clone(), depth);
+    let stats = run.explore("write-histories", "per configuration (7 depths x 2 data orders x sizes {1x1,3x2,5x3,8x2,9x2} x buffer {exact,+3 bytes}): all sequences of set_pixel (corners, middle, 4 outside points x 3 values) / draw_iter / fill_solid partly outside / clear / stroked rectangle / text with background (thorough: circle, line, thick triangle) from the zeroed and the 0xA5-filled framebuffer, deduplicated on the byte array", &m, inits.clone(), depth);
     if run.tier.is_thorough() || proto.w() == 3 {
         // second engine over the same transition function (quick: the 3x2 configurations only)
         run.cross_check_stateright("write-histories", std::sync::Arc::new(m), inits, depth, &stats);
